@@ -20,6 +20,8 @@ type C16Case struct {
 	// SameProps: every properties-carrying chunk repeats the same lc/lp/pb (a "new properties"
 	// chunk still implies a state reset); otherwise the properties rotate
 	SameProps bool `json:",omitempty"`
+	// Scheme 2/3/4: from one properties-carrying chunk to the next only pb / only lp / only lc changes
+	Scheme int `json:",omitempty"`
 }
 
 func init() {
@@ -39,14 +41,26 @@ func init() {
 // depends on the previous byte (0 after a real reset), which makes a skipped reset visible
 var c16Props = []ref.Props{{LC: 1, LP: 1, PB: 2}, {LC: 2, LP: 0, PB: 1}, {LC: 1, LP: 0, PB: 3}}
 
+// property schemes: how the properties change from one properties-carrying chunk to the next.
+// 0: all three rotate (c16Props); 1: never (SameProps); 2: only pb; 3: only lp; 4: only lc.
+var c16Schemes = map[int][]ref.Props{
+	2: {{LC: 1, LP: 1, PB: 2}, {LC: 1, LP: 1, PB: 0}, {LC: 1, LP: 1, PB: 4}, {LC: 1, LP: 1, PB: 1}},
+	3: {{LC: 1, LP: 0, PB: 2}, {LC: 1, LP: 2, PB: 2}, {LC: 1, LP: 1, PB: 2}, {LC: 1, LP: 3, PB: 2}},
+	4: {{LC: 3, LP: 0, PB: 2}, {LC: 0, LP: 0, PB: 2}, {LC: 4, LP: 0, PB: 2}, {LC: 1, LP: 0, PB: 2}},
+}
+
 // c16Build realises a kind sequence as bytes. Chunks are observably
 // different if a reset is skipped: odd plaintext lengths with lp,pb>0 make
 // position-dependent contexts differ after a skipped dictionary reset; chunks
 // after a state reset are coded against fresh probabilities while earlier
 // chunks adapted them; "new props" chunks rotate lc/lp/pb; chunks without
 // dictionary reset reach into the previous chunk.
-func c16Build(kinds []int, sameProps bool) (data []byte, plains [][]byte, offsets []int) {
+func c16Build(kinds []int, sameProps bool, scheme ...int) (data []byte, plains [][]byte, offsets []int) {
 	g := ref.NewLZMA2Gen()
+	c16Props := c16Props
+	if len(scheme) > 0 && c16Schemes[scheme[0]] != nil {
+		c16Props = c16Schemes[scheme[0]]
+	}
 	pi := 0
 	for i, k := range kinds {
 		kind := ref.ChunkKind(k)
@@ -102,7 +116,7 @@ func kindsString(kinds []int) string {
 
 func c16Sequence(r *core.Run, p C16Case) {
 	cs := core.MkCase("C16", "sequence", p)
-	data, plains, _ := c16Build(p.Kinds, p.SameProps)
+	data, plains, _ := c16Build(p.Kinds, p.SameProps, p.Scheme)
 	// specification verdict
 	a := ref.NewChunkAutomaton()
 	legalPrefix := 0
@@ -140,7 +154,7 @@ func c16Sequence(r *core.Run, p C16Case) {
 		panic(fmt.Sprintf("C16 harness error: liblzma accepts the sequence %s the automaton calls illegal", kindsString(p.Kinds)))
 	}
 	out, err, proto, pan := lzma2Decode(data, 4096)
-	desc := fmt.Sprintf("chunk kinds [%s]+end (same properties in every chunk: %v); specification: legal=%v (legal prefix %d chunks)", kindsString(p.Kinds), p.SameProps, legal, legalPrefix)
+	desc := fmt.Sprintf("chunk kinds [%s]+end (same properties in every chunk: %v, property scheme %d); specification: legal=%v (legal prefix %d chunks)", kindsString(p.Kinds), p.SameProps, p.Scheme, legal, legalPrefix)
 	cls := errClass(err)
 	site := "lzma2R seq "
 	if legal {
@@ -299,6 +313,18 @@ func runC16(r *core.Run) {
 		cases = append(cases, C16Case{Kinds: append([]int(nil), pref...)})
 		if len(pref) > 1 {
 			cases = append(cases, C16Case{Kinds: append([]int(nil), pref...), SameProps: true})
+			// only one of pb / lp / lc changes (sequences with at least two properties-carrying chunks)
+			np := 0
+			for _, k := range pref {
+				if ref.ChunkKind(k) == ref.CLZMAProps || ref.ChunkKind(k) == ref.CLZMAFull {
+					np++
+				}
+			}
+			if np >= 2 && len(pref) <= depth-1 {
+				for sc := 2; sc <= 4; sc++ {
+					cases = append(cases, C16Case{Kinds: append([]int(nil), pref...), Scheme: sc})
+				}
+			}
 		}
 		if len(pref) == depth {
 			return
@@ -312,7 +338,7 @@ func runC16(r *core.Run) {
 		cases = append(cases, C16Case{Probe: true, Control: c}, C16Case{Probe: true, Control: c, Second: true})
 	}
 	r.Extra("sequences", len(cases)-512)
-	r.Note("every sequence of two or more chunks is realised twice: with rotating properties and with the same properties in every chunk")
+	r.Note("every sequence of two or more chunks is realised twice: with rotating properties and with the same properties in every chunk; sequences (up to depth-1) with at least two properties-carrying chunks additionally with only pb / only lp / only lc changing")
 	r.Extra("control_byte_probes", 512)
 	r.Extra("liblzma_second_opinion", liblzmaAvailable())
 	r.Sample(map[string]interface{}{"kinds": kindsString(cases[100].Kinds) + ",end"})
